@@ -51,7 +51,7 @@ def emit(ex, conn, frame, node):
     st.out_buf = Store(st.out_buf, conn, Store(st.out_buf[conn], n, frame))
     st.out_len = Store(st.out_len, conn, n + 1)
     if hasattr(ex, "emissions"):
-        ex.emissions.append((node.lineno, conn, frame, ex.st.copy(), len(ex.p.pc)))
+        ex.emissions.append((node.lineno, getattr(ex, "_emit_type", None), ex.st.copy()))
 
 
 def send_message(ex, recv, args, node):
@@ -125,7 +125,9 @@ def apply_send(ex, recv, args, kwargs, node):
     if len(args) != 1:
         raise Unsupported("send() arity at %d" % node.lineno)
     tx = ex.clock().t
+    ex._emit_type = args[0].py if isinstance(args[0], VConst) else None
     emit(ex, recv.t, frame_of(ex, args[0], kwargs, tx, node), node)
+    ex._emit_type = None
     return VConst(None)
 
 
